@@ -459,6 +459,8 @@ pub struct ScriptedSub {
     pub read_wh: u32,
     /// bumped after every on_notify (lets a controller wait for notifications without polling)
     pub counter: Option<Arc<Counter>>,
+    /// bumped by on_unsubscribe
+    pub unsub_counter: Option<Arc<Counter>>,
 }
 
 impl Subscriber<St, Act> for ScriptedSub {
@@ -481,6 +483,9 @@ impl Subscriber<St, Act> for ScriptedSub {
     fn on_unsubscribe(&self) {
         let store = if self.store == 255 { 0 } else { self.store };
         self.ctx.ev(K::SUnsub, store, 0, self.id, 0, 0, 0);
+        if let Some(c) = &self.unsub_counter {
+            c.add(1);
+        }
     }
 }
 
